@@ -63,6 +63,27 @@ func runC20(c *Cfg) {
 		}
 		return
 	}
+	if strings.HasPrefix(c.Replay, "bench:") {
+		// cost of the pipeline stages on one generated package (sizing of the tiers)
+		var n int
+		fmt.Sscan(strings.TrimPrefix(c.Replay, "bench:"), &n)
+		p, _ := c20GenPackage(NewRng(c.Seed).Sub(), false)
+		t0 := c20CPU()
+		for i := 0; i < n; i++ {
+			c20Load(p)
+		}
+		t1 := c20CPU()
+		for i := 0; i < n; i++ {
+			c20EvalPkg(p)
+		}
+		t2 := c20CPU()
+		for i := 0; i < n; i++ {
+			c20CheckPkgOpts(p, c20Opts{})
+		}
+		t3 := c20CPU()
+		fmt.Printf("load %v  load+eval %v  pipeline %v per package\n%s", (t1-t0)/time.Duration(n), (t2-t1)/time.Duration(n), (t3-t2)/time.Duration(n), p.String())
+		return
+	}
 	if strings.HasPrefix(c.Replay, "gen:") {
 		// dump generated packages that trim refuses (generator tuning)
 		var n int
